@@ -70,7 +70,7 @@ def run(ctx):
                 f.write(json.dumps(rec) + "\n")
         out = os.path.join(ctx.work, "rep_%d.ndjson" % ci)
         s = run_json([runner, "both", "--list", lf, "--out", out, "--reports", "on"], timeout=6000)
-        lines = open(out).read().splitlines()
+        lines = nl_lines(out)
         os.remove(out)
         parts = 6
         for p in range(parts):
